@@ -56,7 +56,9 @@ func (s *StrStore) Load(ss []string) ([]int, error) {
 		totalLen += len(ss[i])
 	}
 	idxes := make([]int, n)
-	if cap(s.buf) < totalLen {
+	if cap(s.buf) < totalLen || s.viewsOfBuf(ss) {
+		// a string may be a view of the old buffer (returned by Get):
+		// the buffer must not be overwritten while such strings are still to be copied
 		s.buf = make([]byte, totalLen)
 	} else {
 		s.buf = s.buf[:totalLen]
@@ -70,6 +72,26 @@ func (s *StrStore) Load(ss []string) ([]int, error) {
 		offset += strlenSize + len(ss[i])
 	}
 	return idxes, nil
+}
+
+// viewsOfBuf reports whether any of ss shares memory with the backing array of s.buf.
+func (s *StrStore) viewsOfBuf(ss []string) bool {
+	if cap(s.buf) == 0 {
+		return false
+	}
+	buf := s.buf[:cap(s.buf)]
+	lo := uintptr(unsafe.Pointer(&buf[0]))
+	hi := lo + uintptr(len(buf))
+	for _, str := range ss {
+		if len(str) == 0 {
+			continue
+		}
+		p := (*[2]uintptr)(unsafe.Pointer(&str))[0] // data pointer of the string header
+		if p < hi && p+uintptr(len(str)) > lo {
+			return true
+		}
+	}
+	return false
 }
 
 // Get gets the string with the idx.
